@@ -42,6 +42,8 @@ func c02(c *Ctx) {
 	// R12 (round 8): ShedderGroup hands out one shedder per key through syncx.ResourceManager — its create-once rules (C07)
 	// are part of this check (two shedders for one key split the in-flight count)
 	runShared(c, "C07.", "C02.R12·C07.", c07)
+	// R13 (round 8)
+	chainContains(c, "C02.R13", "Shedding", "SheddingHandler", "the shedding middleware")
 }
 
 func loadCall(name string) px.Pred {
